@@ -110,3 +110,38 @@ def run_dec(pkts, out, args, timeout=120, variant="hooks"):
                 except ValueError:
                     pass
     return {"rc": rc, "events": evs, "log": log, "cmd": cmd}
+
+
+def validate_trace(res, module, recs, index, label, what, timeout=3000, heap="16g", count_traces=True):
+    """Validate a concatenated NDJSON trace against specs/<module>.tla (cfg <module>.cfg).
+    index: list of (first, last, description) 1-based ranges of the individual executions.
+    On rejection records a violation with the offending execution as replay artefact. Returns
+    (accepted, index_entry_of_rejection)."""
+    import collections
+    if not recs:
+        raise vlib.ModelFailure("no events recorded for " + label)
+    p = os.path.join(vlib.tmpdir(), "%s_%s.ndjson" % (module, label))
+    vlib.write_ndjson(p, recs)
+    ok, consumed, r = vlib.tlc_trace(module, module + ".cfg", p, timeout=timeout, heap=heap)
+    res.add("trace_events_validated", consumed)
+    if count_traces:
+        res.add("traces_validated_against_impl", len(index))
+    ec = collections.Counter(res.cov.setdefault("event_counts", {}).get(module, {}))
+    ec.update(x["ev"] for x in recs)
+    res.cov["event_counts"][module] = dict(ec)
+    if ok:
+        return True, None
+    bad = consumed + 1
+    hit = [(a, b, d) for a, b, d in index if a <= bad <= b]
+    inst = recs[hit[0][0] - 1:hit[0][1]] if hit else recs[max(0, bad - 50):bad]
+    desc = hit[0][2] if hit else "?"
+    return False, {"bad": bad, "event": recs[bad - 1] if bad <= len(recs) else None, "desc": desc,
+                   "inst": inst, "context": recs[max(0, bad - 8):bad], "what": what, "module": module}
+
+
+def report_rejection(res, rej, key=None):
+    txt = ("%s: trace rejected by %s.tla at event %d: %s  [%s]" %
+           (rej["what"], rej["module"], rej["bad"], json.dumps(rej["event"])[:600], rej["desc"]))
+    body = ("last accepted events and the rejected one:\n" + "\n".join(json.dumps(x) for x in rej["context"]) +
+            "\n\nmodule: %s\nfull instance trace (NDJSON):\n" % rej["module"] + "\n".join(json.dumps(x) for x in rej["inst"][:30000]))
+    return res.violation(txt, body, key=key)
